@@ -3,12 +3,20 @@ from .. import core, tlc, illformed
 from .structural import CONSTS, model_sig
 
 
+KINDS = {"dup-identical", "dup-diff-samedeps", "dup-regrouped", "dup-diff-deps", "dup-other-comp-diff", "dup-other-comp-identical",
+         "clash-state-param-equal", "clash-state-param-unequal", "clash-param-inter", "clash-state-inter",
+         "dup-state-diff", "dup-param-diff", "dup-state-identical",
+         "missing-derivative", "orphan-derivative", "misplaced-derivative",
+         "orphan-derivative-stateless", "derivative-of-parameter", "derivative-copy-elsewhere",
+         "undefined-symbol", "cycle-1", "cycle-2", "undefined-in-param-value"}
+
+
 def main(chk: core.Check, replay):
     if replay:
         return core.replay_generic(chk, replay)
     quick = chk.tier == "quick"
     consts = dict(CONSTS, NInter=1 if quick else 2, FreeSchedule=False, EmitMod=0,
-                  BaseMod=7 if quick else 53, FaultEmitMod=131 if quick else 67)
+                  BaseMod=7 if quick else 53, FaultEmitMod=127 if quick else 61)
     cfg = tlc.make_cfg(spec="FSpec", constants=consts,
                        invariants=["C08_AcceptIffWellFormed", "C08_FaultsAreIllFormed", "C08_NoSilentChoice", "FEmit"])
     res = tlc.run_tlc("MC_IllFormed", cfg, workers=chk.nproc, timeout=3000, constants_for_summary=consts)
@@ -32,6 +40,8 @@ def main(chk: core.Check, replay):
                           f"ill-formed text (fault {o['fault']['kind']} at {site}) was loaded and code was generated: "
                           f"one of two conflicting definitions was silently kept")
     chk.extra["faults"] = kinds
+    if set(kinds) != KINDS:
+        raise core.MachineryFailure(f"fault kinds without a text or unknown: {sorted(set(kinds) ^ KINDS)}")
     chk.extra["wellformed_but_rejected"] = sum(1 for o in out if o["wellformed"] and not o["accepted"])
     bad = [o for o in out if not o["wellformed"]]
     if not bad:
